@@ -39,6 +39,8 @@ class BehavioralTranslatorL3( BehavioralTranslatorL2 ):
 
   def dispatch_freevar_datatype( s, dtype ):
     if isinstance( dtype, rdt.Struct ):
-      return s.rtlir_tr_struct_dtype( dtype )
+      # Also registers the struct: its definition has to be emitted even if
+      # no port or wire of the design has this type
+      return s.rtlir_data_type_translation( None, dtype )
     else:
       return super().dispatch_freevar_datatype( dtype )
